@@ -330,7 +330,9 @@ fn eval(name: &str, a: &[Value]) -> Value {
                     }
                 }
             }
-            let testcase = scrut::testcase::TestCase { title: "".into(), shell_expression: "cmd".into(), expectations: existing, exit_code: None,
+            // optional 5th argument: the shell expression (default `cmd`)
+            let expression = a.get(4).map(str_arg).unwrap_or_else(|| "cmd".to_string());
+            let testcase = scrut::testcase::TestCase { title: "".into(), shell_expression: expression.clone(), expectations: existing, exit_code: None,
                 line_number: 1, config };
             let result = testcase.validate(&output);
             if result.is_ok() {
@@ -355,7 +357,7 @@ fn eval(name: &str, a: &[Value]) -> Value {
             if tests.len() != 1 {
                 return json!({"passes": false, "why": format!("{} test cases", tests.len()), "document": text});
             }
-            if tests[0].shell_expression != "cmd" {
+            if tests[0].shell_expression != expression {
                 return json!({"passes": false, "why": format!("shell expression {:?}", tests[0].shell_expression), "document": text});
             }
             match tests[0].validate(&output) {
